@@ -31,6 +31,12 @@ repaired clipboard parser of fixes/C02-clipboard.patch wherever that parser is a
                               the same inputs are fixed cases of the `parsechunk` engine (classes `chunk-dependent`,
                               `swallow`)
 * `sgr_junk_swallowed`        pinned `parseSgrMouse` ignores unknown bytes: chunk independent, but swallows them
+                              (finding `swallow-into-mouse-report`); `sgr_pinned_esc_waits`: and keeps every `ESC x` waiting
+* `sgr_no_junk`               the repaired parser (fixes/C02-sgr-strict.patch, `Cfg.sgrStrict`) consumes exactly the bytes
+                              of one SGR report (independent grammar `Spec.SgrGrammar.isSgrReport`), for all buffers;
+                              `sgr_report_recognised` (both variants accept every report), `sgr_strict_exact` (iff);
+                              `sgr_strict_delivers`, `sgr_strict_esc_immediate`; every theorem above holds for both
+                              variants (`Stable` does not mention the variant; `stable_sgr_variant`, `db_stable_strict`)
 -/
 namespace Tcell.Props.C02
 open Tcell Tcell.Model Tcell.Lemmas.Collect Tcell.Lemmas.PrefixFree Tcell.Lemmas.Chunk
@@ -270,19 +276,117 @@ theorem sgr_junk_swallowed :
     collect exCfg {} [27, 113, 91, 60, 48, 59, 53, 59, 53, 77] false = ⟨[.mouse 4 4 1 0], { buttondn := true }, [], false⟩ := by
   decide
 
+/-- … and while the buffer holds `ESC x` the pinned SGR parser still reports "partial" (the `x` is skipped, the loop runs
+off the end), so on a mouse terminal Alt-x is not delivered until the escape timeout fires -/
+theorem sgr_pinned_esc_waits :
+    collect exCfg {} [27, 120] false = ⟨[], {}, [27, 120], false⟩
+    ∧ collect exCfg {} [27, 120] true = ⟨[.key 256 120 4], {}, [], false⟩ := by decide
+
+/-! ### the repaired `parseSgrMouse` (fixes/C02-sgr-strict.patch: `default: return false, false`) -/
+
+/-- `exCfg` with the repaired SGR parser -/
+def exStrict : Cfg := { exCfg with sgrStrict := true }
+
+/-- `Stable` does not mention the SGR variant: the guard of the pinned variant gives the guard of either one (the strict
+parser completes only where the pinned one does), so every theorem of this file that assumes `Stable` – `collect_append`,
+`feed_chunks_eq_feed_concat`, `parser_monotone`, `no_swallow*`, `expire_drains`, `not_order_dependent` – holds for both -/
+theorem stable_sgr_variant (cfg : Cfg) (hs : Stable cfg) (hp : cfg.sgrStrict = false) (b : Bool) :
+    Stable { cfg with sgrStrict := b } :=
+  { pf := hs.pf, guard := keyGuard_of_pinned cfg { cfg with sgrStrict := b } rfl rfl rfl rfl hp hs.guard, dec := hs.dec,
+    clip := hs.clip }
+
+theorem exStrict_stable : Stable exStrict := stable_sgr_variant exCfg exCfg_stable rfl true
+
+/-- the strict parser is prefix-monotone like the pinned one (`parseSgrMouse_monotone` is stated for every `cfg`) -/
+example : Mono (parseSgrMouse exStrict) := parseSgrMouse_monotone exStrict
+
+open Tcell.Spec.SgrGrammar in
+/-- **sgr_no_junk.**  For the repaired parser, every buffer `b` (no length bound), every parser state: if `parseSgrMouse`
+completes on `b` and removes `n` bytes, then `n ≤ |b|` and the `n` bytes removed are exactly one syntactically valid SGR
+mouse report – introducer `ESC [` or `0x9B`, `<`, three optionally negative decimal fields separated by `;`, final `M`
+or `m` (`Spec.SgrGrammar.isSgrReport`, a recogniser of that regular expression written from ctlseqs; a field may be empty,
+which the parser reads as 0).  Hence no byte that is not part of a report is ever consumed by it: nothing in front of the
+report, nothing inside it, nothing behind it. -/
+theorem sgr_no_junk (cfg : Cfg) (hs : cfg.sgrStrict = true) (st : PState) (b : Bytes) (n : Nat) (evs : List Event)
+    (st' : PState) (h : parseSgrMouse cfg st b = .complete n evs st') :
+    isSgrReport (b.take n) = true ∧ n ≤ b.length := by
+  constructor
+  · have := sgrRun_grammar cfg hs st n evs st' b {} 0 h
+    simpa [Tcell.Lemmas.SgrStrict.okFrom] using this
+  · exact ((parseSgrMouse_monotone cfg).bound st b n evs st' h).2
+
+/-- the same at the level of the loop: when an iteration of `collectEventsFromInput` is decided by the SGR parser, the
+bytes it takes off the buffer are one report and what follows it is left untouched -/
+theorem sgr_no_junk_append (cfg : Cfg) (hs : cfg.sgrStrict = true) (st : PState) (b : Bytes) (n : Nat) (evs : List Event)
+    (st' : PState) (h : parseSgrMouse cfg st b = .complete n evs st') :
+    ∃ r t, b = r ++ t ∧ r.length = n ∧ Tcell.Spec.SgrGrammar.isSgrReport r = true := by
+  obtain ⟨hg, hn⟩ := sgr_no_junk cfg hs st b n evs st' h
+  exact ⟨b.take n, b.drop n, (List.take_append_drop n b).symm, by simp [List.length_take, Nat.min_eq_left hn], hg⟩
+
+open Tcell.Spec.SgrGrammar in
+/-- **every report is recognised** (both variants): if `r` is an SGR report of the grammar, `parseSgrMouse` completes on
+`r ++ t` for every continuation `t` and removes exactly the `|r|` bytes of the report -/
+theorem sgr_report_recognised (cfg : Cfg) (st : PState) (r t : Bytes) (h : isSgrReport r = true) :
+    ∃ evs st', parseSgrMouse cfg st (r ++ t) = .complete r.length evs st' := by
+  have := sgrRun_of_grammar cfg st t r {} 0 (by simpa [Tcell.Lemmas.SgrStrict.okFrom] using h)
+  simpa [parseSgrMouse] using this
+
+open Tcell.Spec.SgrGrammar in
+/-- **the repaired parser completes exactly on reports**: for every buffer `b` and every `n`, `parseSgrMouse` completes
+removing `n` bytes iff the first `n` bytes of `b` are one SGR report of the grammar -/
+theorem sgr_strict_exact (cfg : Cfg) (hs : cfg.sgrStrict = true) (st : PState) (b : Bytes) (n : Nat) :
+    (∃ evs st', parseSgrMouse cfg st b = .complete n evs st') ↔ (n ≤ b.length ∧ isSgrReport (b.take n) = true) := by
+  constructor
+  · rintro ⟨evs, st', h⟩
+    have := sgr_no_junk cfg hs st b n evs st' h
+    exact ⟨this.2, this.1⟩
+  · rintro ⟨hn, hg⟩
+    have := sgr_report_recognised cfg st (b.take n) (b.drop n) hg
+    rwa [List.take_append_drop, List.length_take, Nat.min_eq_left hn] at this
+
+example : ∃ evs st', parseSgrMouse exStrict {} ([0x9b, 60, 51, 53, 59, 45, 49, 59, 49, 50, 51, 109] ++ [120]) = .complete 12 evs st' :=
+  sgr_report_recognised exStrict {} _ [120] (by decide)
+example : (∃ evs st', parseSgrMouse exStrict {} [27, 91, 60, 48, 59, 53, 59, 53, 77, 120] = .complete 9 evs st') :=
+  (sgr_strict_exact exStrict rfl {} _ 9).mpr (by decide)
+
+-- the hypotheses are satisfiable: a report followed by more input
+example : parseSgrMouse exStrict {} [27, 91, 60, 48, 59, 53, 59, 53, 77, 120, 121] = .complete 9 [.mouse 4 4 1 0] { buttondn := true } := by
+  decide
+-- and the pinned parser does not have the property: it consumes ten bytes that are no report
+example : parseSgrMouse exCfg {} [27, 113, 91, 60, 48, 59, 53, 59, 53, 77] = .complete 10 [.mouse 4 4 1 0] { buttondn := true }
+    ∧ Tcell.Spec.SgrGrammar.isSgrReport [27, 113, 91, 60, 48, 59, 53, 59, 53, 77] = false := by decide
+
+/-- the input of `sgr_junk_swallowed` on the repaired parser: every byte is delivered (Alt-q, then `[<0;5;5M` as text) -/
+theorem sgr_strict_delivers :
+    collect exStrict {} [27, 113, 91, 60, 48, 59, 53, 59, 53, 77] false
+      = ⟨[.key 256 113 4, .key 256 91 0, .key 256 60 0, .key 256 48 0, .key 256 59 0, .key 256 53 0, .key 256 59 0,
+          .key 256 53 0, .key 256 77 0], {}, [], false⟩ := by decide
+
+/-- … an invalid byte in front of a report stays in front of it (it waits for the timeout as a possible character
+start, then is delivered; the report behind it still decodes) -/
+theorem sgr_strict_delivers_ff :
+    collect exStrict {} [255, 27, 91, 60, 48, 59, 53, 59, 53, 77] true = ⟨[.key 256 255 0, .mouse 4 4 1 0], { buttondn := true }, [], false⟩
+    ∧ collect exCfg {} [255, 27, 91, 60, 48, 59, 53, 59, 53, 77] true = ⟨[.mouse 4 4 1 0], { buttondn := true }, [], false⟩ := by decide
+
+/-- … and Alt-x no longer waits for the escape timeout on a mouse terminal -/
+theorem sgr_strict_esc_immediate : collect exStrict {} [27, 120] false = ⟨[.key 256 120 4], {}, [], false⟩ := by decide
+
 /-! ### database layer: `Stable` for every regenerated entry -/
 
 open Tcell.Props.C03 in
 /-- configuration of the screen built for a database entry: key table as extracted from the real constructor (and proved
 equal to `buildKeys` by the exhaustive `keytable` correspondence), the parsers `collectEventsFromInput` activates for it,
-and the clipboard parser variant of the tree under test (`Gen.clipFixed`: the translator's behavioural probe, the same
-question engine `parsechunk` asks to choose the model variant it is compared with) -/
+and the clipboard / SGR-mouse parser variants of the tree under test (`Gen.clipFixed`, `Gen.sgrStrict`: the translator's
+behavioural probes, the same questions engine `parsechunk` asks to choose the model variant it is compared with) -/
 def dbCfg (p : Terminfo × List Gen.KeyRow) : Cfg :=
   { keys := toTable p.2, mouse := mouseActive p.1, clipboard := clipboardActive p.1, clipFixed := Gen.clipFixed,
-    dec := decUtf8, w := 80, h := 24 }
+    sgrStrict := Gen.sgrStrict, dec := decUtf8, w := 80, h := 24 }
 
 /-- the current tree has the clipboard parser of /repo 6c7d26f (cuts at the terminator it found, checks its prefix) -/
 theorem tree_clip_fixed : Gen.clipFixed = true := by decide
+
+/-- … and the strict SGR mouse parser of /repo 9fa9988 (`Stable` does not need this: both variants are prefix-monotone) -/
+theorem tree_sgr_strict : Gen.sgrStrict = true := by decide
 
 /-- some key sequence of the table properly extends a focus report `ESC [ I` / `ESC [ O` -/
 def focusClash (T : KeyTable) : Bool :=
@@ -328,13 +432,14 @@ theorem rxvt_focus_clash :
 /-- the guard does not look at the decoder … -/
 theorem stable_of_dec (cfg : Cfg) (hs : Stable cfg) (dec : Bytes → DecResult) (hd : DecLaws dec) :
     Stable { cfg with dec := dec } :=
-  { pf := hs.pf, guard := by rw [keyGuard_congr cfg { cfg with dec := dec } rfl rfl rfl rfl]; exact hs.guard, dec := hd, clip := hs.clip }
+  { pf := hs.pf, guard := by rw [keyGuard_congr cfg { cfg with dec := dec } rfl rfl rfl rfl rfl]; exact hs.guard, dec := hd, clip := hs.clip }
 
 /-- … nor at the screen size or the X11 variant: `Stable` transfers between configurations with the same key table,
-active parsers, clipboard variant and decoder -/
+active parsers, clipboard and SGR variants and decoder -/
 theorem stable_congr (cfg cfg' : Cfg) (hs : Stable cfg) (hk : cfg'.keys = cfg.keys) (hm : cfg'.mouse = cfg.mouse)
-    (hc : cfg'.clipboard = cfg.clipboard) (hf : cfg'.clipFixed = cfg.clipFixed) (hd : cfg'.dec = cfg.dec) : Stable cfg' :=
-  { pf := hk ▸ hs.pf, guard := by rw [keyGuard_congr cfg cfg' hk hm hc hf]; exact hs.guard, dec := hd ▸ hs.dec,
+    (hc : cfg'.clipboard = cfg.clipboard) (hf : cfg'.clipFixed = cfg.clipFixed) (hst : cfg'.sgrStrict = cfg.sgrStrict)
+    (hd : cfg'.dec = cfg.dec) : Stable cfg' :=
+  { pf := hk ▸ hs.pf, guard := by rw [keyGuard_congr cfg cfg' hk hm hc hf hst]; exact hs.guard, dec := hd ▸ hs.dec,
     clip := fun h => by rw [hf]; exact hs.clip (hc ▸ h) }
 
 /-- the screen of a database entry at an arbitrary size and with either X11 mouse variant -/
@@ -350,7 +455,7 @@ theorem db_chunk_independent : ∀ p ∈ Gen.dbTables, ∀ (w h : Int) (x11 : Bo
     feeds (dbCfgAt p w h x11) st buf cs last e = feeds (dbCfgAt p w h x11) st buf [] (cs.flatten ++ last) e :=
   fun p hp w h x11 cs last e st buf =>
     feed_chunks_eq_feed_concat (dbCfgAt p w h x11)
-      (stable_congr (dbCfg p) (dbCfgAt p w h x11) (db_stable p hp) rfl rfl rfl rfl rfl) last e cs st buf
+      (stable_congr (dbCfg p) (dbCfgAt p w h x11) (db_stable p hp) rfl rfl rfl rfl rfl rfl) last e cs st buf
 
 /-- … and after the escape timeout nothing stays buffered, for every built-in entry -/
 theorem db_expire_drains : ∀ p ∈ Gen.dbTables, ∀ (st : PState) (b : Bytes), (collect (dbCfg p) st b true).rest = [] :=
@@ -369,5 +474,14 @@ example : 40 ≤ Gen.dbTables.length ∧
 theorem db_collect_append : ∀ p ∈ Gen.dbTables, ∀ (st : PState) (a b : Bytes) (e : Bool),
     collect (dbCfg p) st (a ++ b) e = feed2 (dbCfg p) st a b e :=
   fun p hp st a b e => collect_append_stable (dbCfg p) (db_stable p hp) st a b e
+
+/-- the same for the repaired SGR parser (fixes/C02-sgr-strict.patch): `Stable` and chunk independence for every database
+entry without a focus clash -/
+theorem db_stable_strict : ∀ p ∈ Gen.dbTables, focusClash (dbCfg p).keys = false → Stable { dbCfg p with sgrStrict := true } :=
+  fun p hp hno => stable_sgr_variant (dbCfg p) (db_stable_partial p hp hno) rfl true
+
+theorem db_collect_append_strict : ∀ p ∈ Gen.dbTables, focusClash (dbCfg p).keys = false → ∀ (st : PState) (a b : Bytes) (e : Bool),
+    collect { dbCfg p with sgrStrict := true } st (a ++ b) e = feed2 { dbCfg p with sgrStrict := true } st a b e :=
+  fun p hp hno st a b e => collect_append_stable _ (db_stable_strict p hp hno) st a b e
 
 end Tcell.Props.C02
